@@ -14,22 +14,29 @@
    util/resolve/graph.go, property C13), whose error conditions (node not in graph) are kept.
    Graph.Canon is not part of this model: it is Graph.canon of C13, composed in Extract/CasesSchema.v.
    The line numbers kept in resolveRow are only used in error texts and are left out. *)
-From DepsDev Require Import Lib.Base Pypi.PyStr Resolve.Graph.
+From DepsDev Require Import Lib.Base Pypi.PyStr Resolve.Graph Gen.SchemaTables.
 
 (* ------------------------------------------------------------------ string helpers *)
 Definition c_tab : N := 9.
 Definition c_nl : N := 10.
 Definition c_space : N := 32.
-Definition c_hash : N := 35.
 Definition c_dollar : N := 36.
 Definition c_at : N := 64.
-Definition c_bar : N := 124.
-Definition s_error_top : bytes := [69;82;82;79;82;58].             (* ERROR: *)
-Definition s_error_mid : bytes := [32;69;82;82;79;82;58;32].       (* space ERROR: space *)
-Definition s_colon : bytes := [58;32].                             (* colon space *)
-(* the four prefixes of replaceArt: three spaces, and the box-drawing forms (UTF-8) *)
-Definition art_patterns : list bytes :=
-  [[32;32;32]; [226;148;156;226;148;128;32]; [226;148;130;32;32]; [226;148;148;226;148;128;32]].
+(* The separators parseResolve looks for in a trimmed line, the offsets it slices after them and the
+   prefixes of replaceArt are read from the Go source on every run (Gen/SchemaTables.v, emitter
+   harness/go/cmd/gotables/schema.go):
+     schema_comment                                   the byte of strings.Index(tl, #) == 0
+     schema_error_top, schema_error_top_skip          HasPrefix(tl, ERROR:) and tl[6:]
+     schema_error_mid, schema_error_mid_skip          Index(tl, space ERROR: space) and tl[i+8:]
+     schema_colon, schema_colon_skip                  Index(tl, colon space) and tl[i+2:]
+     schema_bar, schema_bar_skip                      Index(tl, bar) and tl[i+1:]
+     schema_art_patterns                              three spaces and the box-drawing forms (UTF-8) *)
+Definition c_hash : N := schema_comment.
+Definition c_bar : N := schema_bar.
+Definition s_error_top : bytes := schema_error_top.
+Definition s_error_mid : bytes := schema_error_mid.
+Definition s_colon : bytes := schema_colon.
+Definition art_patterns : list bytes := schema_art_patterns.
 
 (* strings.Index for a non-empty separator *)
 Fixpoint index_sub (sep s : bytes) {struct s} : option nat :=
@@ -122,14 +129,14 @@ Definition at_index (requirement : bytes) : res Z :=
 (* if i := strings.Index(tl, " ERROR: "); i != -1 { r.err = tl[i+8:]; tl = tl[:i] } *)
 Definition cut_error (tl : bytes) : res (bytes * bytes) :=
   match index_sub s_error_mid tl with
-  | Some i => e <- from_z tl (Z.of_nat i + 8) ;; t <- upto_z tl (Z.of_nat i) ;; Ok (e, t)
+  | Some i => e <- from_z tl (Z.of_nat i + schema_error_mid_skip) ;; t <- upto_z tl (Z.of_nat i) ;; Ok (e, t)
   | None => Ok ([], tl)
   end.
 
 (* if i := strings.Index(tl, ": "); i != -1 { r.label = tl[:i]; tl = TrimSpace(tl[i+2:]) } *)
 Definition cut_label (tl : bytes) : res (bytes * bytes) :=
   match index_sub s_colon tl with
-  | Some i => l <- upto_z tl (Z.of_nat i) ;; t <- from_z tl (Z.of_nat i + 2) ;; Ok (l, trim t)
+  | Some i => l <- upto_z tl (Z.of_nat i) ;; t <- from_z tl (Z.of_nat i + schema_colon_skip) ;; Ok (l, trim t)
   | None => Ok ([], tl)
   end.
 
@@ -139,7 +146,7 @@ Definition cut_deptype (tl : bytes) : res (dtype * bytes) :=
   | Some i => pre <- upto_z tl (Z.of_nat i) ;;
               match parse_deptype pre with
               | None => Err EDepType
-              | Some dt => t <- from_z tl (Z.of_nat i + 1) ;; Ok (dt, trim t)
+              | Some dt => t <- from_z tl (Z.of_nat i + schema_bar_skip) ;; Ok (dt, trim t)
               end
   | None => Ok ((0, []), tl)
   end.
@@ -205,7 +212,7 @@ Fixpoint parse_lines (lines : list bytes) (s : schema) : res schema :=
       if (match index_byte c_hash tl with Some O => true | _ => false end) || is_nil tl
       then parse_lines rest s
       else if has_prefix s_error_top tl then
-        e <- from_z tl 6 ;;
+        e <- from_z tl schema_error_top_skip ;;
         parse_lines rest {| s_errs := s_errs s ++ [trim e]; s_rows := s_rows s; s_labels := s_labels s |}
       else
         p <- parse_row line ;;
@@ -216,34 +223,30 @@ Fixpoint parse_lines (lines : list bytes) (s : schema) : res schema :=
         parse_lines rest {| s_errs := s_errs s; s_rows := s_rows s ++ [fst p]; s_labels := labels' |}
   end.
 
-(* the validation loop; [prev] is s.rows[i-1].depth (None for i = 0: the Go code reads
-   s.rows[i-1] only under i > 0, inside a range over s.rows) *)
-Fixpoint validate (labels : lmap) (prev : option nat) (rows : list row) : res unit :=
-  match rows with
+(* the validation loop from row number i on ([todo] is s.rows[i:]); s.rows[i-1] is a checked access *)
+Fixpoint validate_from (labels : lmap) (rows : list row) (i : nat) (todo : list row) : res unit :=
+  match todo with
   | [] => Ok tt
   | r :: rest =>
       let d := r_depth r in
-      let bad :=
-        match prev with
-        | None => if Nat.ltb 0 d then Some ENotRoot else None
-        | Some p => if Nat.eqb d 0 then Some ESeveralRoots
-                    else if Nat.ltb (p + 1) d then Some ESkippedLevel else None
-        end in
-      match bad with
-      | Some e => Err e
-      | None =>
-          if (match lfind labels (r_label r) with Some _ => false | None => true end)
-             && is_nil (r_name r) && is_nil (r_err r)
-          then Err EUndefinedLabel
-          else validate labels (Some d) rest
-      end
+      if Nat.eqb i 0 && Nat.ltb 0 d then Err ENotRoot
+      else if Nat.ltb 0 i && Nat.eqb d 0 then Err ESeveralRoots
+      else
+        skipped <- (if Nat.ltb 0 i then p <- idx rows (i - 1) ;; Ok (Nat.ltb (r_depth p + 1) d)
+                    else Ok false) ;;
+        if skipped then Err ESkippedLevel
+        else if (match lfind labels (r_label r) with Some _ => false | None => true end)
+                && is_nil (r_name r) && is_nil (r_err r)
+        then Err EUndefinedLabel
+        else validate_from labels rows (S i) rest
   end.
+Definition validate (labels : lmap) (rows : list row) : res unit := validate_from labels rows 0 rows.
 
 Definition empty_schema : schema := {| s_errs := []; s_rows := []; s_labels := [] |}.
 
 Definition parse_resolve (text : bytes) : res schema :=
   s <- parse_lines (split_on c_nl text) empty_schema ;;
-  _ <- validate (s_labels s) None (s_rows s) ;;
+  _ <- validate (s_labels s) (s_rows s) ;;
   Ok s.
 
 (* ------------------------------------------------------------------ ParseResolve *)
